@@ -8,6 +8,7 @@ answer each box was graded against.  Oracle = brute force over all n! assignment
 import itertools
 from ..core import Family, Result, viol, HarnessError
 from ..fixtures import TableGrader
+from ..refs import c05_model as M
 
 from mitxgraders import ListGrader, SingleListGrader
 from mitxgraders.exceptions import ConfigError
@@ -104,21 +105,23 @@ def check_flat(result, inputs, answers_lists, table, ordered, partial_credit, ta
 class Tables(Family):
     """(a) every n x n credit table"""
 
-    def __init__(self, name, n, palette, tiers, inputs=None):
+    def __init__(self, name, n, palette, tiers, inputs=None, answers=None):
         self.name = name
         self.n = n
         self.palette = palette
         self.tiers = tiers
         self.given_inputs = inputs
+        self.given_answers = answers
         self.rule = ('every %dx%d credit table over %s x ordered {T,F} x partial_credit {T,F}; unordered results must be a '
                      'one-to-one assignment with brute-force maximal total, each entry at the position of its input%s'
                      % (n, n, palette, '' if inputs is None else '; the submitted boxes are %r (blank boxes are graded by the '
-                        'subgrader like any other)' % (inputs,)))
+                        'subgrader like any other; boxes holding the SAME text are still separate boxes)' % (inputs,)))
+        if answers is not None:
+            self.rule += '; the answers are %r (equal answers are still separate answers)' % (answers,)
 
     def setup(self, tier):
         n = self.n
-        self.answers = ['A%d' % k for k in range(n)]
-        self.inputs = list(self.given_inputs) if self.given_inputs else ['I%d' % j for j in range(n)]
+        self.names()
         self.graders = {}
         for ordered in (False, True):
             for pc in (False, True):
@@ -126,20 +129,31 @@ class Tables(Family):
                 g = ListGrader(answers=list(self.answers), subgraders=sub, ordered=ordered, partial_credit=pc)
                 self.graders[(ordered, pc)] = (g, sub)
 
+    def names(self):
+        n = self.n
+        self.answers = list(self.given_answers) if self.given_answers else ['A%d' % k for k in range(n)]
+        self.inputs = list(self.given_inputs) if self.given_inputs else ['I%d' % j for j in range(n)]
+        # the DISTINCT (answer, input) pairs, in row-major order of first occurrence (all n*n pairs when names are distinct)
+        self.keys = []
+        for j in range(n):
+            for k in range(n):
+                if (self.answers[k], self.inputs[j]) not in self.keys:
+                    self.keys.append((self.answers[k], self.inputs[j]))
+
     def cases(self, tier):
         if tier not in self.tiers:
             return
+        self.names()
         b = len(self.palette)
-        for idx in range(b ** (self.n * self.n)):
+        for idx in range(b ** len(self.keys)):
             yield idx
 
     def table_of(self, idx):
         b = len(self.palette)
         t = {}
-        for j in range(self.n):
-            for k in range(self.n):
-                idx, d = divmod(idx, b)
-                t[(self.answers[k], self.inputs[j])] = self.palette[d]
+        for key in self.keys:
+            idx, d = divmod(idx, b)
+            t[key] = self.palette[d]
         return t
 
     def describe(self, case):
@@ -401,9 +415,9 @@ class Groupings(Family):
         grouping, outer_ordered, inner_ordered, perm = [tuple(x) if isinstance(x, list) else x for x in case]
         try:
             g, members, A, I, table = self.build(grouping, outer_ordered, inner_ordered)
-        except ConfigError as e:
+        except Exception as e:
             return Result('config-rejected', True, viol('grouping:valid-config-rejected',
-                                                        'grouping %r rejected: %s' % (grouping, e)))
+                                                        'grouping %r rejected: %r' % (grouping, e)))
         n = len(grouping)
         submitted = [I[p] for p in perm]          # box b holds input atom I[perm[b]]
         try:
@@ -537,6 +551,582 @@ class SingleListSub(Family):
         return Result('tot=%.3g' % best, True, None, calls)
 
 
+# ------------------------------------------------------------------------------ model-driven families (refs/c05_model.py)
+
+QUART = (0.25, 0.5, 0.3, 0.7, 0.2, 0.6, 0.4, 0.1)
+
+
+def a_table(n, twist=0):
+    """input Ik earns 1 from answer Ak and a partial credit from ONE neighbour answer (which one and how much depends on twist)"""
+    t = {}
+    for k in range(n):
+        nb = (k + 1) % n if twist % 2 == 0 else (k - 1) % n
+        t[('A%d' % nb, 'I%d' % k)] = QUART[(k + 3 * twist) % 8]
+        t[('A%d' % k, 'I%d' % k)] = 1
+    return t
+
+
+def ab_table(n):
+    """a_table plus a second family of answers: Bk is fully matched by I(n-1-k) and earns 0.6 from Ik"""
+    t = a_table(n)
+    for k in range(n):
+        t[('B%d' % k, 'I%d' % k)] = 0.6
+    for k in range(n):
+        t[('B%d' % k, 'I%d' % (n - 1 - k))] = 1
+    return t
+
+
+def one(*items):
+    """a single answer list (no alternatives) in model form"""
+    return (list(items),)
+
+
+def A(k):
+    return M.alts('A%d' % k)
+
+
+def B(k):
+    return M.alts('B%d' % k)
+
+
+class ModelFamily(Family):
+    """
+    Cases are (configuration index, inputs...).  catalog(tier) lists (label, spec, answers, iterable of input tuples);
+    the real graders are built once per worker from the spec, the verdict is refs.c05_model.judge (exhaustive search).
+    """
+    timeout = 30.0
+
+    def catalog(self, tier):
+        raise NotImplementedError
+
+    def _cat(self, tier):
+        if getattr(self, '_catalog', None) is None or self._catalog[0] != tier:
+            self._catalog = (tier, self.catalog(tier))
+        return self._catalog[1]
+
+    def setup(self, tier):
+        self.tier = tier
+        self.built = {}
+
+    def cases(self, tier):
+        for ci, (label, spec, answers, inputs) in enumerate(self._cat(tier)):
+            for inp in inputs:
+                yield (ci,) + tuple(inp)
+
+    def describe(self, case):
+        cat = self._cat(getattr(self, 'tier', 'thorough'))
+        return {'configuration': cat[case[0]][0], 'inputs': list(case[1:])}
+
+    def grader(self, ci):
+        if ci not in self.built:
+            label, spec, answers, _ = self._cat(self.tier)[ci]
+            self.built[ci] = M.build(spec, answers)
+        return self.built[ci]
+
+    def split(self, case):
+        return case[0], list(case[1:]), None
+
+    def precall(self, g, inputs, extra):
+        return 0
+
+    def check(self, case):
+        ci, inputs, extra = self.split(case)
+        label, spec, answers, _ = self._cat(self.tier)[ci]
+        try:
+            g = self.grader(ci)
+        except Exception as e:
+            return Result('config-rejected', True, viol(self.name + ':valid-config-rejected', '%s rejected: %r' % (label, e)))
+        calls = 1 + self.precall(g, inputs, extra)
+        try:
+            res = g(None, list(inputs))
+        except Exception as e:
+            return Result('raised', True, viol(self.name + ':raised', '%s inputs %r raised %r' % (label, inputs, e)), calls)
+        o, v = M.judge(spec, answers, inputs, res, self.name, viol)
+        if v:
+            v['msg'] = '%s: %s' % (label, v['msg'])
+            return Result(o, True, v, calls)
+        return Result(o, o != 'tot=0', None, calls)
+
+
+class OrderedSubgraderList(ModelFamily):
+    name = 'ordered_subgrader_list'
+    rule = ('ordered ListGrader with a LIST of three subgraders whose credit tables differ (also one subgrader object used at two '
+            'positions), one answer list / two lists that are permutations of each other / answers with alternatives and partial '
+            'credits, partial_credit {T,F}; every 3-tuple of inputs over (I0,I1,I2,Z,blank) x {plain call, call after a call '
+            'that raised for a wrong number of inputs, call after a call in which a subgrader raised}: entry i must be what '
+            'subgrader i returns for answer i and input i, and every subgrader must be told its siblings (grader, input) in box order')
+
+    def catalog(self, tier):
+        pool = ('I0', 'I1', 'I2', 'Z', '')
+        inputs = [(h,) + x for h in (0, 1, 2) for x in itertools.product(pool, repeat=3)]
+        cat = []
+        for pc in (True, False):
+            T = [M.Leaf('T%d' % t, a_table(3, t), raise_on=('BOOM',)) for t in range(3)]
+            perm2 = ([A(0), A(1), A(2)], [A(1), A(0), A(2)])
+            cat.append(('3 distinct subgraders, one list, pc=%s' % pc, M.Lst(list(T), True, pc), one(A(0), A(1), A(2)), inputs))
+            cat.append(('3 distinct subgraders, lists (A0,A1,A2)/(A1,A0,A2), pc=%s' % pc, M.Lst(list(T), True, pc), perm2, inputs))
+            cat.append(('subgraders [T0,T1,T0] (one object twice), two lists, pc=%s' % pc, M.Lst([T[0], T[1], T[0]], True, pc), perm2, inputs))
+            alt = one(M.alts('A0', ('A1', 0.5)), A(1), M.alts(('A2', 0.5), 'A0'))
+            cat.append(('3 distinct subgraders, answers with alternatives, pc=%s' % pc, M.Lst(list(T), True, pc), alt, inputs))
+        return cat
+
+    def split(self, case):
+        return case[0], list(case[2:]), case[1]
+
+    def describe(self, case):
+        d = ModelFamily.describe(self, (case[0],) + tuple(case[2:]))
+        d['history'] = ('plain', 'after wrong-count call', 'after subgrader exception')[case[1]]
+        return d
+
+    def precall(self, g, inputs, h):
+        if h == 0:
+            return 0
+        try:
+            g(None, inputs[:-1] if h == 1 else inputs[:-1] + ['BOOM'])
+        except Exception:
+            pass
+        return 1
+
+
+class GroupedAnswerLists(ModelFamily):
+    name = 'grouped_answer_lists'
+    rule = ('4 boxes in 2 groups (groupings 1122, 1212, 2211 [thorough also 1221]) x outer ordered {T,F} x inner ordered {T,F} x (outer, inner) '
+            'partial_credit in {(T,T),(F,T),(T,F)}, TWO alternative answer lists ([[A0,A1],[A2,A3]] and [[B0,B1],[B2,B3]], the '
+            'B answers fully matched by the reversed inputs and partly by the straight ones); every 4-tuple of inputs over '
+            '(I0..I3, Z): the reported entries must be one of the results the exhaustive search over lists x group assignments '
+            'x inner assignments allows (inner zeroing before the outer assignment, outer zeroing after the list is chosen)')
+
+    def catalog(self, tier):
+        pool = ('I0', 'I1', 'I2', 'I3', 'Z')
+        inputs = list(itertools.product(pool, repeat=4))
+        table = ab_table(4)
+        cat = []
+        for grouping in ((1, 1, 2, 2), (1, 2, 1, 2), (2, 2, 1, 1)) + (((1, 2, 2, 1),) if tier != 'quick' else ()):
+            m = [[i for i in range(4) if grouping[i] == g] for g in (1, 2)]
+            # the answer of a group lists the atoms of its boxes in box order, so that straight inputs are fully correct
+            la = one(*[one(*[A(i) for i in grp]) for grp in m])[0]
+            lb = one(*[one(*[B(i) for i in grp]) for grp in m])[0]
+            for outer in (False, True):
+                for inner in (False, True):
+                    for opc, ipc in ((True, True), (False, True), (True, False)):
+                        spec = M.Lst(M.Lst(M.Leaf('T', table), inner, ipc), outer, opc, grouping)
+                        cat.append(('grouping %r outer_ordered=%s inner_ordered=%s partial_credit outer=%s inner=%s'
+                                    % (grouping, outer, inner, opc, ipc), spec, (la, lb), inputs))
+        return cat
+
+
+class NestedVariants(ModelFamily):
+    name = 'nested_variants'
+    rule = ('nested graders beyond the plain case, every tuple of inputs over the atoms (+Z, or + a BLANK box in (b), (c), (e), (f)): (a) a group answer that is itself a '
+            'TUPLE of alternative lists, outer/inner ordered {T,F}^2 x groupings 1122/1212; (b) an author SUBCLASS of ListGrader '
+            'as nested grader; (c) unordered outer over an ordered inner grader with a list of two different subgraders; '
+            '(d) ordered outer with subgraders [L, L] (ONE nested ListGrader object at two positions) for groups of 2 and 3 boxes (quick: the 5! arrangements of I0..I4, thorough: all 5^5 tuples); '
+            '(e) ordered outer with subgraders [item, list] for groupings 122/212/221 and two answer lists; (f) flat unordered grader with three alternative lists that SHARE answers; (g) unordered outer over 3 groups of 2 boxes, all 6! arrangements (thorough: also 4 groups of 2, pair-aligned arrangements and those with boxes 1 and 4 exchanged); verdict by exhaustive search')
+
+    def catalog(self, tier):
+        cat = []
+        pool4 = ('I0', 'I1', 'I2', 'I3', 'Z')
+        in4 = list(itertools.product(pool4, repeat=4))
+        in4b = list(itertools.product(('I0', 'I1', 'I2', 'I3', ''), repeat=4))      # blank boxes inside groups
+        t4 = ab_table(4)
+        for grouping in ((1, 1, 2, 2), (1, 2, 1, 2)):
+            m = [[i for i in range(4) if grouping[i] == g] for g in (1, 2)]
+            for outer in (False, True):
+                for inner in (False, True):
+                    # (a) first group: alternatives (A.., B..); second group: one list
+                    ans = one(([A(i) for i in m[0]], [B(i) for i in m[0]]), one(*[A(i) for i in m[1]]))
+                    spec = M.Lst(M.Lst(M.Leaf('T', t4), inner), outer, True, grouping)
+                    cat.append(('(a) group 1 has alternative lists, grouping %r outer_ordered=%s inner_ordered=%s'
+                                % (grouping, outer, inner), spec, ans, in4))
+            # (b)
+            ans = one(*[one(*[A(i) for i in grp]) for grp in m])
+            spec = M.Lst(M.Lst(M.Leaf('T', t4), False, True, None, M.SubclassedListGrader), False, True, grouping)
+            cat.append(('(b) subclassed nested grader, grouping %r' % (grouping,), spec, ans, in4b))
+            # (c)
+            spec = M.Lst(M.Lst([M.Leaf('T0', a_table(4, 0)), M.Leaf('T1', a_table(4, 1))], True), False, True, grouping)
+            cat.append(('(c) unordered outer, inner ordered with subgraders [T0,T1], grouping %r' % (grouping,), spec, ans, in4b))
+        # (d)
+        pool5 = ('I0', 'I1', 'I2', 'I3', 'I4')
+        in5 = (list(itertools.permutations(pool5)) if tier == 'quick' else list(itertools.product(pool5, repeat=5)))
+        t5 = a_table(5)
+        for grouping in ((1, 1, 2, 2, 2), (2, 2, 2, 1, 1), (2, 1, 2, 1, 2)):
+            m = [[i for i in range(5) if grouping[i] == g] for g in (1, 2)]
+            for inner in (False, True):
+                L = M.Lst(M.Leaf('T', t5), inner)
+                spec = M.Lst([L, L], True, True, grouping)
+                ans = one(*[one(*[A(i) for i in grp]) for grp in m])
+                cat.append(('(d) ordered outer, subgraders [L, L] same object, grouping %r inner_ordered=%s' % (grouping, inner),
+                            spec, ans, in5))
+        # (e)
+        pool3 = ('I0', 'I1', 'I2', 'Z', '')
+        in3 = list(itertools.product(pool3, repeat=3))
+        t3 = ab_table(3)
+        for grouping in ((1, 2, 2), (2, 1, 2), (2, 2, 1), (2, 1, 1), (1, 2, 1), (1, 1, 2)):
+            m = [[i for i in range(3) if grouping[i] == g] for g in (1, 2)]
+            for inner in (False, True):
+                for pc in (True, False):
+                    subs, la, lb = [], [], []
+                    for grp in m:
+                        if len(grp) == 1:
+                            subs.append(M.Leaf('S', t3))
+                            la.append(A(grp[0]))
+                            lb.append(B(grp[0]))
+                        else:
+                            subs.append(M.Lst(M.Leaf('T', t3), inner))
+                            la.append(one(*[A(i) for i in grp]))
+                            lb.append(one(*[B(i) for i in grp]))
+                    spec = M.Lst(subs, True, pc, grouping)
+                    cat.append(('(e) ordered outer, item + list subgraders, grouping %r inner_ordered=%s partial_credit=%s, two lists'
+                                % (grouping, inner, pc), spec, (la, lb), in3))
+        # (g) unordered outer over three (thorough: also four) groups of two boxes
+        t6 = a_table(6)
+        perms6 = [tuple('I%d' % q for q in perm) for perm in itertools.permutations(range(6))]
+        for grouping in ((1, 1, 2, 2, 3, 3), (1, 2, 3, 1, 2, 3), (3, 3, 1, 1, 2, 2)):
+            m = [[i for i in range(6) if grouping[i] == g] for g in (1, 2, 3)]
+            for inner in (False, True):
+                spec = M.Lst(M.Lst(M.Leaf('T', t6), inner), False, True, grouping)
+                cat.append(('(g) unordered outer, 3 groups of 2, grouping %r inner_ordered=%s' % (grouping, inner), spec,
+                            one(*[one(*[A(i) for i in grp]) for grp in m]), perms6))
+        if tier != 'quick':
+            t8 = a_table(8)
+            al = list(aligned8())
+            in8 = al + [x[:1] + x[4:5] + x[2:4] + x[1:2] + x[5:] for x in al]
+            for grouping in ((1, 1, 2, 2, 3, 3, 4, 4), (4, 3, 2, 1, 1, 2, 3, 4)):
+                m = [[i for i in range(8) if grouping[i] == g] for g in (1, 2, 3, 4)]
+                for inner in (False, True):
+                    spec = M.Lst(M.Lst(M.Leaf('T', t8), inner), False, True, grouping)
+                    cat.append(('(g) unordered outer, 4 groups of 2, grouping %r inner_ordered=%s' % (grouping, inner), spec,
+                                one(*[one(*[A(i) for i in grp]) for grp in m]), in8))
+        # (f) flat unordered, alternative lists that share answers
+        for pc in (True, False):
+            spec = M.Lst(M.Leaf('T', t3), False, pc)
+            cat.append(('(f) flat unordered, lists (A0,A1,A2)/(A0,A1,B0)/(B2,A1,A0), partial_credit=%s' % pc, spec,
+                        ([A(0), A(1), A(2)], [A(0), A(1), B(0)], [B(2), A(1), A(0)]), in3))
+        return cat
+
+
+def aligned8():
+    """the 4! x 2^4 arrangements of I0..I7 that keep the pairs (I0,I1),(I2,I3),(I4,I5),(I6,I7) in pair-aligned boxes"""
+    for sigma in itertools.permutations(range(4)):
+        for flips in itertools.product((0, 1), repeat=4):
+            yield tuple('I%d' % (2 * sigma[b // 2] + ((b % 2) ^ flips[b // 2])) for b in range(8))
+
+
+class ThreeLevels(ModelFamily):
+    name = 'three_levels'
+    timeout = 60.0
+    rule = ('ListGrader > ListGrader > ListGrader > item grader.  5 boxes: ordered outer [nested, item] for groupings 11112/21111/'
+            '11211, the nested grader grouping its four boxes 1122 or 1212, middle/inner ordered {T,F}^2, ALL 5! arrangements of '
+            'the inputs.  8 boxes: outer grouping 11112222 (thorough also 12121212 with middle 1221), middle grouping 1122, '
+            'outer/middle/inner ordered {T,F}^3; quick: the 384 pair-aligned arrangements and the same with boxes 1 and 4 '
+            'exchanged; thorough: ALL 8! arrangements for the block layout; verdict by exhaustive search over all three levels')
+
+    def catalog(self, tier):
+        cat = []
+        t5 = a_table(5)
+        perms5 = [tuple('I%d' % p for p in perm) for perm in itertools.permutations(range(5))]
+        for grouping in ((1, 1, 1, 1, 2), (2, 1, 1, 1, 1), (1, 1, 2, 1, 1)):
+            four = [i for i in range(5) if grouping[i] == 1]
+            single = [i for i in range(5) if grouping[i] == 2][0]
+            for mid_grouping in ((1, 1, 2, 2), (1, 2, 1, 2)):
+                mm = [[four[i] for i in range(4) if mid_grouping[i] == g] for g in (1, 2)]
+                for mid in (False, True):
+                    for inner in (False, True):
+                        midspec = M.Lst(M.Lst(M.Leaf('T', t5), inner), mid, True, mid_grouping)
+                        spec = M.Lst([midspec, M.Leaf('S', t5)], True, True, grouping)
+                        ans = one(one(*[one(*[A(i) for i in grp]) for grp in mm]), A(single))
+                        cat.append(('5 boxes: outer %r, nested %r middle_ordered=%s inner_ordered=%s' % (grouping, mid_grouping, mid, inner),
+                                    spec, ans, perms5))
+        t8 = a_table(8)
+        al = list(aligned8())
+        swapped = [x[:1] + x[4:5] + x[2:4] + x[1:2] + x[5:] for x in al]
+        layouts = [((1, 1, 1, 1, 2, 2, 2, 2), (1, 1, 2, 2))]
+        if tier != 'quick':
+            layouts.append(((1, 2, 1, 2, 1, 2, 1, 2), (1, 2, 2, 1)))
+        for li, (og, mg) in enumerate(layouts):
+            halves = [[i for i in range(8) if og[i] == g] for g in (1, 2)]
+            ans_groups = []
+            for half in halves:
+                mm = [[half[i] for i in range(4) if mg[i] == g] for g in (1, 2)]
+                ans_groups.append(one(*[one(*[A(i) for i in grp]) for grp in mm]))
+            ans = one(*ans_groups)
+            # arrangements are given for the block layout; for another layout the same atoms are dealt to the boxes of each group
+            def deal(x, og=og, mg=mg):
+                if li == 0:
+                    return x
+                order = []
+                for half in halves:
+                    mm = [[half[i] for i in range(4) if mg[i] == g] for g in (1, 2)]
+                    order += mm[0] + mm[1]
+                out = [None] * 8
+                for src, box in enumerate(order):
+                    out[box] = 'I%d' % order[int(x[src][1:])]
+                return tuple(out)
+            if tier == 'quick' or li > 0:
+                inputs = [deal(x) for x in al + swapped]
+            else:
+                inputs = [tuple('I%d' % p for p in perm) for perm in itertools.permutations(range(8))]
+            for outer in (False, True):
+                for mid in (False, True):
+                    for inner in (False, True):
+                        spec = M.Lst(M.Lst(M.Lst(M.Leaf('T', t8), inner), mid, True, mg), outer, True, og)
+                        cat.append(('8 boxes: outer %r middle %r ordered outer=%s middle=%s inner=%s' % (og, mg, outer, mid, inner),
+                                    spec, ans, inputs))
+        return cat
+
+
+# ------------------------------------------------------------------------------ differential with real item graders
+
+def answer_form(code):
+    """an author's way of writing one answer; fresh objects on every call (the library validates answers in place)"""
+    fi, pi = divmod(code, 2)
+    x, y = (('a', 'b'), ('', 'c'))[pi]       # the second pair has the EMPTY string as an answer (matched by blank boxes)
+    return [lambda: x,
+            lambda: (x, y),
+            lambda: {'expect': x, 'grade_decimal': 0.5, 'msg': 'half-' + x},
+            lambda: ({'expect': x, 'msg': 'good-' + x}, {'expect': y, 'grade_decimal': 0.5, 'msg': 'meh-' + y}),
+            lambda: {'expect': (x, y), 'msg': 'either-' + x + y},
+            lambda: {'expect': x, 'grade_decimal': 0, 'msg': 'known-wrong-' + x}][fi]()
+
+
+NFORMS = 12
+FORM_INPUTS = ('a', 'b', 'c', '', 'x')
+
+
+def differential_verdict(tag, entries, direct, ordered, pc, n):
+    """
+    entries: the ListGrader's input_list; direct[j][k]: result of an identically configured item grader holding answer k
+    for input j.  Allowed: the entries of any bijection (the identity if ordered) of maximal total; all zeroed when
+    partial_credit is off and not every entry is fully correct (messages are then left open).
+    """
+    perms = [tuple(range(n))] if ordered else list(itertools.permutations(range(n)))
+    tots = [sum(direct[j][p[j]]['grade_decimal'] for j in range(n)) for p in perms]
+    best = max(tots)
+    for p, t in zip(perms, tots):
+        if t < best - EPS:
+            continue
+        exp = [direct[j][p[j]] for j in range(n)]
+        perfect = all(e['ok'] is True and e['grade_decimal'] == 1 for e in exp)
+        if pc or perfect:
+            good = all(abs(entries[j]['grade_decimal'] - exp[j]['grade_decimal']) <= EPS and entries[j]['ok'] == exp[j]['ok']
+                       and entries[j]['msg'] == exp[j]['msg'] for j in range(n))
+        else:
+            good = all(entries[j]['grade_decimal'] == 0 and entries[j]['ok'] is False for j in range(n))
+        if good:
+            return ('perfect' if perfect else ('zeroed' if not pc else 'tot=%.3g' % best)), None
+    return 'wrong', viol(tag + ':not-the-subgrader-results-of-a-maximal-assignment',
+                         'got %r; subgrader results [input][answer] %r' % (entries, direct), best, entries)
+
+
+class AnswerForms(Family):
+    """answers with alternatives, partial credits and messages, graded by a real StringGrader"""
+
+    def __init__(self, name, n, tiers):
+        self.name = name
+        self.n = n
+        self.tiers = tiers
+        self.rule = ('ListGrader over StringGrader(wrong_msg set), %d answers, each written in one of 6 forms (string / tuple of '
+                     'strings / dict with partial credit and message / tuple of dicts / dict with a tuple of expects / zero-credit '
+                     'dict with message) over the pairs (a,b) and (empty string, c); every %d-tuple of inputs over %r x ordered {T,F} x partial_credit '
+                     '{T,F}: the entries (ok, grade, message) must be those an identically configured StringGrader returns for '
+                     'each (answer, input) of a maximal assignment' % (n, n, FORM_INPUTS))
+
+    def setup(self, tier):
+        from mitxgraders import StringGrader
+        self.SG = StringGrader
+        self.cache = {}
+        self.direct = {}
+
+    def cases(self, tier):
+        if tier not in self.tiers:
+            return
+        # inputs in the outer loop: 12^n is a multiple of 16, so a worker process meets (and builds graders for) only
+        # 1/16 of the answer lists
+        for inp in itertools.product(range(len(FORM_INPUTS)), repeat=self.n):
+            for codes in itertools.product(range(NFORMS), repeat=self.n):
+                yield codes + inp
+
+    def describe(self, case):
+        return {'answers': [repr(answer_form(c)) for c in case[:self.n]], 'inputs': [FORM_INPUTS[i] for i in case[self.n:]]}
+
+    def check(self, case):
+        n = self.n
+        codes, inputs = tuple(case[:n]), [FORM_INPUTS[i] for i in case[n:]]
+        if codes not in self.cache:
+            try:
+                self.cache[codes] = dict(((o, pc), ListGrader(answers=[answer_form(c) for c in codes],
+                                                              subgraders=self.SG(wrong_msg='wrong!'), ordered=o, partial_credit=pc))
+                                         for o in (False, True) for pc in (True, False))
+            except Exception as e:
+                return Result('config-rejected', True, viol(self.name + ':valid-config-rejected',
+                                                            'answers %r rejected: %r' % ([answer_form(c) for c in codes], e)), 0)
+        for c in codes:
+            if c not in self.direct:
+                self.direct[c] = self.SG(answers=answer_form(c), wrong_msg='wrong!')
+        direct = [[self.direct[c](None, inp) for c in codes] for inp in inputs]
+        calls = n * n
+        out = None
+        for (o, pc), g in sorted(self.cache[codes].items()):
+            calls += 1
+            try:
+                res = g(None, list(inputs))
+            except Exception as e:
+                return Result('raised', True, viol(self.name + ':raised', 'ordered=%s partial_credit=%s raised %r' % (o, pc, e)), calls)
+            oc, v = differential_verdict('%s:%s%s' % (self.name, 'ordered' if o else 'unordered', '' if pc else ':nopartial'),
+                                         res['input_list'], direct, o, pc, n)
+            if v:
+                return Result(oc, True, v, calls)
+            if not o and pc:
+                out = oc
+        return Result(out, out != 'tot=0', None, calls)
+
+
+class MixedRealSubgraders(Family):
+    name = 'mixed_real_subgraders'
+    rule = ('ordered ListGrader with subgraders [StringGrader, NumericalGrader, SingleListGrader] and two alternative answer lists, '
+            'every input triple over small pools x partial_credit {T,F}: the answers of position i must have been validated and '
+            'graded by subgrader i (entries equal the results of identically configured stand-alone graders), best list reported')
+    POOLS = (('cat', 'dog', 'x'), ('3.5', '2', '7/2', '1'), ('a, b', 'b,a', 'c,d', 'a'))
+    LISTS = (('cat', '3.5', 'a, b'), ('dog', '2', 'c, d'))
+
+    def setup(self, tier):
+        self.gs = None
+
+    def build(self):
+        from mitxgraders import StringGrader, NumericalGrader, SingleListGrader
+        mk = [lambda **kw: StringGrader(**kw), lambda **kw: NumericalGrader(**kw),
+              lambda **kw: SingleListGrader(subgrader=StringGrader(), **kw)]
+        self.direct = [[mk[k](answers=L[k]) for k in range(3)] for L in self.LISTS]
+        self.gs = dict((pc, ListGrader(answers=tuple(list(L) for L in self.LISTS), subgraders=[m() for m in mk],
+                                       ordered=True, partial_credit=pc)) for pc in (True, False))
+
+    def cases(self, tier):
+        return itertools.product(*[range(len(p)) for p in self.POOLS])
+
+    def describe(self, case):
+        return [self.POOLS[k][case[k]] for k in range(3)]
+
+    def check(self, case):
+        inputs = self.describe(case)
+        if self.gs is None:
+            try:
+                self.build()
+            except Exception as e:
+                self.gs = None
+                return Result('config-rejected', True, viol('mixed:valid-config-rejected', 'construction raised %r' % (e,)), 0)
+        per_list = [[self.direct[l][k](None, inputs[k]) for k in range(3)] for l in range(2)]
+        tots = [sum(e['grade_decimal'] for e in L) for L in per_list]
+        calls = 6
+        for pc, g in sorted(self.gs.items()):
+            calls += 1
+            try:
+                ents = g(None, list(inputs))['input_list']
+            except Exception as e:
+                return Result('raised', True, viol('mixed:raised', 'partial_credit=%s raised %r' % (pc, e)), calls)
+            good = False
+            for L, t in zip(per_list, tots):
+                if t < max(tots) - EPS:
+                    continue
+                perfect = all(e['ok'] is True for e in L)
+                if pc or perfect:
+                    good = good or all(abs(ents[k]['grade_decimal'] - L[k]['grade_decimal']) <= EPS and ents[k]['ok'] == L[k]['ok']
+                                       and ents[k]['msg'] == L[k]['msg'] for k in range(3))
+                else:
+                    good = good or all(ents[k]['grade_decimal'] == 0 and ents[k]['ok'] is False for k in range(3))
+            if not good:
+                return Result('wrong', True, viol('mixed:not-the-results-of-subgrader-i-for-the-best-list',
+                                                  'inputs %r partial_credit=%s: got %r; stand-alone results per list %r'
+                                                  % (inputs, pc, ents, per_list), max(tots), ents), calls)
+        return Result('tot=%.3g' % max(tots), max(tots) > 0, None, calls)
+
+
+class ListsDiagonal(TwoLists):
+    """three alternative lists, credits only on the positional pairs, so that finer credits fit"""
+
+    def __init__(self, name, n, palette, tiers, nlists=3):
+        TwoLists.__init__(self, name, n, palette, tiers, nlists)
+        self.rule = ('%d alternative answer lists, every assignment of credits from %s to the %d positional (answer k, input k) pairs '
+                     'of every list (all other pairs earn 0) x ordered {T,F} x partial_credit {T,F}: the entries must come from one '
+                     'list whose total is the maximum over the lists' % (nlists, palette, n))
+
+    def cases(self, tier):
+        if tier not in self.tiers:
+            return
+        for idx in range(len(self.palette) ** (self.n * self.nlists)):
+            yield (idx,)
+
+    def table_of(self, idxs):
+        idx = idxs[0]
+        b = len(self.palette)
+        t = {}
+        for L in self.lists:
+            for k in range(self.n):
+                idx, d = divmod(idx, b)
+                t[(L[k], self.inputs[k])] = self.palette[d]
+        return t
+
+    def describe(self, case):
+        t = self.table_of(case)
+        return {'credit of box k against answer k, per list': [[t[(L[k], self.inputs[k])] for k in range(self.n)] for L in self.lists]}
+
+
+class NumericalUnordered(Family):
+    name = 'numerical_subgrader'
+    rule = ("ListGrader over a real NumericalGrader, answers ['1', '2', {'expect': '3', 'grade_decimal': 0.5, 'msg': 'three'}], every "
+            "triple of inputs over ('1', '2', '3', '1+1', '0') x ordered {T,F} x partial_credit {T,F}: entries must be the results of "
+            'an identically configured stand-alone NumericalGrader for the pairs of a maximal assignment')
+    POOL = ('1', '2', '3', '1+1', '0')
+
+    @staticmethod
+    def answers():
+        return ['1', '2', {'expect': '3', 'grade_decimal': 0.5, 'msg': 'three'}]
+
+    def setup(self, tier):
+        self.gs = None
+        self.memo = {}
+
+    def build(self):
+        from mitxgraders import NumericalGrader
+        self.direct = [NumericalGrader(answers=a) for a in self.answers()]
+        self.gs = dict(((o, pc), ListGrader(answers=self.answers(), subgraders=NumericalGrader(), ordered=o, partial_credit=pc))
+                       for o in (False, True) for pc in (True, False))
+
+    def cases(self, tier):
+        return itertools.product(range(len(self.POOL)), repeat=3)
+
+    def describe(self, case):
+        return [self.POOL[i] for i in case]
+
+    def check(self, case):
+        inputs = self.describe(case)
+        calls = 0
+        if self.gs is None:
+            try:
+                self.build()
+            except Exception as e:
+                self.gs = None
+                return Result('config-rejected', True, viol(self.name + ':valid-config-rejected', 'construction raised %r' % (e,)), 0)
+        for inp in inputs:
+            if inp not in self.memo:
+                self.memo[inp] = [d(None, inp) for d in self.direct]
+                calls += 3
+        direct = [self.memo[inp] for inp in inputs]
+        out = None
+        for (o, pc), g in sorted(self.gs.items()):
+            calls += 1
+            try:
+                res = g(None, list(inputs))
+            except Exception as e:
+                return Result('raised', True, viol(self.name + ':raised', 'ordered=%s partial_credit=%s raised %r' % (o, pc, e)), calls)
+            oc, v = differential_verdict('%s:%s%s' % (self.name, 'ordered' if o else 'unordered', '' if pc else ':nopartial'),
+                                         res['input_list'], direct, o, pc, 3)
+            if v:
+                return Result(oc, True, v, calls)
+            if not o and pc:
+                out = oc
+        return Result(out, out != 'tot=0', None, calls)
+
+
 def families(tier):
     fams = [
         Tables('tables_2x2', 2, (0, 0.5, 1), ('quick', 'thorough')),
@@ -553,5 +1143,21 @@ def families(tier):
         TwoLists('three_lists_2x2_bin', 2, (0, 1), ('quick', 'thorough'), nlists=3),
         Groupings(),
         SingleListSub(),
+        # boxes holding the same text / answers that are equal
+        Tables('tables_3x3_dup_inputs', 3, (0, 0.5, 1), ('quick', 'thorough'), inputs=['I0', 'I0', 'I1']),
+        Tables('tables_3x3_dup_answers', 3, (0, 0.5, 1), ('quick', 'thorough'), answers=['A0', 'A1', 'A1']),
+        Tables('tables_4x4_dup_both', 4, (0, 0.5, 1), ('quick', 'thorough'), inputs=['I0', 'I1', 'I0', 'I1'],
+               answers=['A0', 'A0', 'A1', 'A2']),
+        OrderedSubgraderList(),
+        GroupedAnswerLists(),
+        NestedVariants(),
+        ThreeLevels(),
+        AnswerForms('answer_forms_2', 2, ('quick', 'thorough')),
+        AnswerForms('answer_forms_3', 3, ('thorough',)),
+        MixedRealSubgraders(),
+        NumericalUnordered(),
+        ListsDiagonal('three_lists_2x2_diagonal', 2, (0, 0.3, 0.5, 1), ('quick', 'thorough')),
+        ListsDiagonal('three_lists_3x3_diagonal', 3, (0, 0.5, 1), ('thorough',)),
+        ListsDiagonal('two_lists_2x2_diagonal_fine', 2, (0, 0.1, 0.3, 1.0 / 3, 0.5, 0.504, 0.996, 1), ('quick', 'thorough'), nlists=2),
     ]
     return fams
